@@ -53,3 +53,10 @@ def _ti_percent(info, sig):
     why = info["why"]
     return ("nterpolation" in why or "release." in why or "base_product." in why or ".name:" in why
             or "differs in <general/family" in why or "differs in <general/name" in why)
+
+
+@signature("images_1_0_pair_differing_only_in_subvariant")
+def _img10_subvariant_pair(info, sig):
+    """C05 F-05b: an images 1.0 document holding two images that only 'subvariant' (new in 1.1) would distinguish."""
+    return (info.get("kind") == "images-upgrade" and bool(info["case"].get("subvariant_pair")) and info["case"]["ver"] == 100
+            and "cannot be re-read" in info["why"] and "UNIQUE_IMAGE_ATTRIBUTES" in info["why"])
